@@ -1,3 +1,3 @@
-CONSTANTS Scope = "full" Mutant = "none"
+CONSTANTS Scope = "full" Mutant = "none" DepEnumOffered = FALSE
 SPECIFICATION Spec
 INVARIANT Emit
